@@ -27,7 +27,8 @@ def jobs(tier):
     js = []
     for nreq in (1, 2):
         for err in ERRNOS:
-            js.append(dict(name="F:%s:r%d" % (errno.errorcode[err], nreq), err=err, nreq=nreq, k=1 if tier == "quick" else 2, P=1))
+            js.append(dict(name="F:%s:r%d" % (errno.errorcode[err], nreq), err=err, nreq=nreq,
+                           k=2 if (tier == "thorough" and nreq == 1 and err in (errno.ECONNRESET, errno.EINVAL)) else 1, P=1))
         js.append(dict(name="EOF:r%d" % nreq, err=None, nreq=nreq, k=1, P=1))
     return js
 
